@@ -215,6 +215,34 @@ def gen_table(rnd, nopts=None, shapes=("unset", "empty", "single", "multi"), wit
 # ---------------------------------------------------------------------------
 # the server
 
+class LenientStore(ConfigStore):
+    """ConfigStore that understands a comma-list option given once per element in one SETCONF
+    (``ExitNodes=a ExitNodes=b`` is taken as ``a,b``).  Real Tor keeps only the last value there;
+    DESIGN C10/C11 leniency L judges comma lists on the wire form only, so the fake Tor must not
+    punish the per-element form -- this is the one deliberate deviation from Tor."""
+    comma = ()
+
+    def apply(self, items, reset=False):
+        seen = {}
+        for k, v in items:
+            c = self.canon(k)
+            if c in self.comma:
+                seen.setdefault(c, []).append(v)
+        if seen:
+            out, done = [], set()
+            for k, v in items:
+                c = self.canon(k)
+                if c in seen:
+                    if c not in done:
+                        done.add(c)
+                        vals = [x for x in seen[c] if x not in (None, "")]
+                        out.append((k, ",".join(vals) if vals else ""))
+                else:
+                    out.append((k, v))
+            items = out
+        return ConfigStore.apply(self, items, reset)
+
+
 class ConfTor(FakeTor):
     """FakeTor over an option table"""
 
@@ -233,7 +261,9 @@ class ConfTor(FakeTor):
             values[n] = list(o["init"])
             if o.get("default"):
                 defaults[n] = list(o["default"])
-        FakeTor.__init__(self, conf=ConfigStore(options, values, defaults), **kw)
+        store = LenientStore(options, values, defaults)
+        store.comma = {o["name"] for o in table if o["type"] in COMMA_TYPES}
+        FakeTor.__init__(self, conf=store, **kw)
         self.table = table
         self.no_config_defaults = bool(no_defaults)
         self.echo = bool(echo)
@@ -349,8 +379,9 @@ def ref_read(typ, vals, dflt):
 
 def read_matches(read, typ, vals, dflt, default_marker="DEFAULT"):
     """(ok, why) -- is `read` a type-correct report of (vals, dflt) for an option of `typ`?
-    Leniencies (DESIGN C11 L + noted in c11.py): unset with no default known may read as the
-    DEFAULT marker / None / '' (lists: [] or [marker]); an empty comma list may read [] or ['']."""
+    Leniencies (DESIGN C11 L + noted in c11.py): an unset scalar with no default known may read as
+    the DEFAULT marker / None / ''; empty-string items of a comma list are ignored (an empty comma
+    list may read [] or ['']).  An unset list option with no default known must read []."""
     want = ref_read(typ, vals, dflt)
     k = kind_of(typ)
     if k != "scalar":
@@ -361,11 +392,9 @@ def read_matches(read, typ, vals, dflt, default_marker="DEFAULT"):
                 return False, "nested-list"
             return False, "non-string-element"
         got = list(read)
+        if k == "commalist":
+            got = [x for x in got if x != ""]      # leniency: an empty comma list may be viewed as ['']
         if got == want:
-            return True, ""
-        if k == "commalist" and want == [] and got == [""]:
-            return True, ""
-        if k != "commalist" and not vals and not dflt and got == [default_marker]:
             return True, ""
         return False, "value"
     if want is UNSET:
